@@ -86,44 +86,51 @@ def run(tier, seed, replay):
     # object -- main() must not rebind or share them, and must run the pipeline for every file
     import ast as _ast
     mainf = chk.repo.find_function(CLI.MAIN)
-    kept, _dropped = CLI.tail_slice(list(mainf.node.body))
-    writes = []
-    for st_ in kept:
-        for x in _ast.walk(st_):
-            if isinstance(x, _ast.Attribute) and isinstance(x.ctx, (_ast.Store, _ast.Del)) and x.attr in ("errors", "_inner"):
-                writes.append(_ast.unparse(x))
-    rpw = replay_cli() if writes else None
-    chk.frame("main.tail_does_not_rebind_errors", not writes, {"writes": writes}, replay=rpw[2] if rpw else None,
-              what=f"main() assigns {writes}: a file's verdict no longer comes from its own analysis")
-    loop = kept[0]
-    calls = [_ast.unparse(x.func) for x in _ast.walk(loop) if isinstance(x, _ast.Call)]
-    # calls made on every path through the loop body (statements of the body and of its try
-    # blocks that are not under an if / loop), seen through helper functions defined in main()
-    # or at module level
-    helpers = {d.name: d for d in _ast.walk(chk.repo.module(CLI.MAIN.split(":")[0]).tree) if isinstance(d, _ast.FunctionDef)}
+    try:
+        kept, _dropped = CLI.tail_slice(list(mainf.node.body))
+    except Exception as e:          # the per-file loop of main() was not located: the frames below say nothing
+        from .common import Item
+        chk.items.append(Item("C04.main.tail_frames", "frame-scan", "undecided", "frame-scan", 0.0, {"reason": str(e)}))
+        chk.undecided.append(f"C04.main.tail_frames: {e}")
+        kept = None
+    if kept is not None:
+        writes = []
+        for st_ in kept:
+            for x in _ast.walk(st_):
+                if isinstance(x, _ast.Attribute) and isinstance(x.ctx, (_ast.Store, _ast.Del)) and x.attr in ("errors", "_inner"):
+                    writes.append(_ast.unparse(x))
+        rpw = replay_cli() if writes else None
+        chk.frame("main.tail_does_not_rebind_errors", not writes, {"writes": writes}, replay=rpw[2] if rpw else None,
+                  what=f"main() assigns {writes}: a file's verdict no longer comes from its own analysis")
+        loop = kept[0]
+        calls = [_ast.unparse(x.func) for x in _ast.walk(loop) if isinstance(x, _ast.Call)]
+        # calls made on every path through the loop body (statements of the body and of its try
+        # blocks that are not under an if / loop), seen through helper functions defined in main()
+        # or at module level
+        helpers = {d.name: d for d in _ast.walk(chk.repo.module(CLI.MAIN.split(":")[0]).tree) if isinstance(d, _ast.FunctionDef)}
 
-    def uncond_calls(stmts, depth=0):
-        out = []
-        for b in stmts:
-            if isinstance(b, _ast.Try):
-                out += uncond_calls(b.body, depth)
-                continue
-            if isinstance(b, (_ast.If, _ast.While, _ast.For, _ast.FunctionDef, _ast.With)):
-                if isinstance(b, _ast.With):
+        def uncond_calls(stmts, depth=0):
+            out = []
+            for b in stmts:
+                if isinstance(b, _ast.Try):
                     out += uncond_calls(b.body, depth)
-                continue
-            for x in _ast.walk(b):
-                if isinstance(x, _ast.Call):
-                    nm = _ast.unparse(x.func)
-                    out.append(nm)
-                    if nm in helpers and nm != "main" and depth < 3:
-                        out += uncond_calls(helpers[nm].body, depth + 1)
-        return out
-    uncond = uncond_calls(loop.body)
-    need = ["Lexer", "Context", "registry.run"]
-    miss = [n for n in need if n not in uncond]
-    chk.frame("main.every_file_goes_through_the_pipeline", not miss, {"unconditional_calls": uncond, "missing": miss},
-              what=f"main() no longer runs {miss} unconditionally for every file of the list")
+                    continue
+                if isinstance(b, (_ast.If, _ast.While, _ast.For, _ast.FunctionDef, _ast.With)):
+                    if isinstance(b, _ast.With):
+                        out += uncond_calls(b.body, depth)
+                    continue
+                for x in _ast.walk(b):
+                    if isinstance(x, _ast.Call):
+                        nm = _ast.unparse(x.func)
+                        out.append(nm)
+                        if nm in helpers and nm != "main" and depth < 3:
+                            out += uncond_calls(helpers[nm].body, depth + 1)
+            return out
+        uncond = uncond_calls(loop.body)
+        need = ["Lexer", "Context", "registry.run"]
+        miss = [n for n in need if n not in uncond]
+        chk.frame("main.every_file_goes_through_the_pipeline", not miss, {"unconditional_calls": uncond, "missing": miss},
+                  what=f"main() no longer runs {miss} unconditionally for every file of the list")
 
     # Errors.status: OK iff no Error-level diagnostic
     from ..specs import errors as SE
